@@ -60,8 +60,8 @@ CHECKS.append(check(
     "DESIGN.md section 3 C, section 5 C05"))
 CHECKS.append(check(
     "C07", "csim", "exploration",
-    "Same simulator on undamaged streams produced at check time by independent encoders (Go compress/flate|zlib|gzip with all levels incl. stored and Huffman-only and flush patterns, Go compress/lzw, system bzip2 -1..-9, system xz --format=xz|lzma presets 0-6 with four integrity checks; payload classes incl. > 32 KiB window) on the ASan and the -O2 builds. Oracle: status ok and output == the original payload, under every drawn delivery schedule.",
-    CSIM_NOTE + " The simulated dimension is the delivery schedule; payload x encoder setting is plain seeded generation. Hashers (CRC-32/64, Adler-32, SHA-256) and PNG/GIF are not driven yet.",
+    "Same simulator on undamaged streams produced at check time by independent encoders (Go compress/flate|zlib|gzip with all levels incl. stored and Huffman-only and flush patterns, Go compress/lzw, system bzip2 -1..-9, system xz --format=xz|lzma presets 0-6 with four integrity checks; payload classes incl. > 32 KiB window) on the ASan and the -O2 builds. Oracle: status ok and output == the original payload, under every drawn delivery schedule. One run in three instead drives a hasher (CRC-32, Adler-32, CRC-64, SHA-256; xxhash32/64) over a seeded payload (lengths around the SIMD block sizes favoured, up to 65 KB, six content classes) cut into update calls by a per-run policy (all at once, pieces of 0-8 bytes, pieces around 16/32/64, halves, one big piece between slivers), each piece in its own exact-size allocation at a drawn misalignment (an over-read is an ASan report), on the SIMD, portable and -O2 builds, over zeroed / 0xFF / noise object memory with the three initialize flags; the value returned by EVERY update call and the final checksum must equal Go's hash/crc32, hash/adler32, hash/crc64 (ECMA) and crypto/sha256 of the prefix; xxhash has no independent reference here and is compared with a single-update run.",
+    CSIM_NOTE + " The simulated dimension is the delivery schedule (for hashers: the schedule of update calls, piece placement, prior memory and build); payload x encoder setting is plain seeded generation. PNG/GIF (pixels) are not driven. Own probe: enlarging Adler-32's deferred-modulo chunk in the portable path is caught (a 39 KB 0xFF-heavy payload on the portable build).",
     "deterministic simulation: I/O-delivery schedule simulator + reference encoders as the model",
     "DESIGN.md section 3 C, section 5 C07"))
 
